@@ -66,6 +66,10 @@ def sites(tree):
             yield node, "flip-bool"
         if isinstance(node, ast.Constant) and isinstance(node.value, int) and not isinstance(node.value, bool) and node.value in (0, 1):
             yield node, "zero-one"
+        if isinstance(node, ast.Call) and isinstance(node.func, ast.Name) and node.func.id in ("list", "copy", "set", "tuple", "make_list", "make_set", "dict") and len(node.args) == 1 and not node.keywords:
+            yield node, "unwrap-copy"  # list(x) -> x : a snapshot becomes the live object
+        if isinstance(node, ast.Compare) and len(node.ops) == 1 and isinstance(node.ops[0], (ast.Is, ast.IsNot, ast.Eq, ast.NotEq)) and not (isinstance(node.comparators[0], ast.Constant) and node.comparators[0].value is None):
+            yield node, "identity-equality"  # is <-> ==
         if isinstance(node, (ast.FunctionDef, ast.For, ast.While, ast.If, ast.With, ast.Try)):
             body = node.body
             for i, stmt in enumerate(body):
@@ -117,6 +121,23 @@ def mutants_of(path, rng, limit):
                             for i, x in enumerate(v):
                                 if x is target:
                                     v[i] = new
+            elif op == "unwrap-copy":
+                before = ast.unparse(target)
+                line = target.lineno
+                inner = target.args[0]
+                for parent in ast.walk(t2):
+                    for f, v in ast.iter_fields(parent):
+                        if v is target:
+                            setattr(parent, f, inner)
+                        elif isinstance(v, list):
+                            for i, x in enumerate(v):
+                                if x is target:
+                                    v[i] = inner
+            elif op == "identity-equality":
+                before = ast.unparse(target)
+                line = target.lineno
+                swap = {ast.Is: ast.Eq, ast.IsNot: ast.NotEq, ast.Eq: ast.Is, ast.NotEq: ast.IsNot}
+                target.ops = [swap[type(target.ops[0])]()]
             elif op == "flip-bool":
                 before = repr(target.value)
                 target.value = not target.value
@@ -197,6 +218,7 @@ def main():
     ap.add_argument("--seed", type=int, default=7)
     ap.add_argument("--slots", type=int, default=6)
     ap.add_argument("--runs", type=int, default=2500)
+    ap.add_argument("--operators", help="comma separated operator names to keep")
     args = ap.parse_args()
     rng = random.Random(args.seed)
     files = [f for f in FILES if not args.files or any(x in f for x in args.files.split(","))]
@@ -204,6 +226,9 @@ def main():
     for f in files:
         limit = args.max_per_file * (3 if f.endswith("symbolic.py") else 1)
         mutants += mutants_of(f, rng, limit)
+    if args.operators:
+        keep = set(args.operators.split(","))
+        mutants = [m for m in mutants if m["operator"] in keep]
     print(f"{len(mutants)} mutants", flush=True)
     slots = [make_slot(i) for i in range(args.slots)]
     free = list(slots)
